@@ -17,6 +17,9 @@ def sig_of(path, direction):
 
 def run(ctx):
     _run(ctx)
+    ctx.delegate("C03", ["C03.stop"], "C01.count",
+                 "the index-less route yields every record of the file: its position counter advances by exactly what a record "
+                 "occupies, so the end test is reached after the last record and not before", floor=2)
     ctx.delegate("C16", ["C16.table", "C16.close"], "C01.role",
                  "a ring keeps its role through write and read: the constructors orient it on the closed ring (the reader derives the "
                  "role from that orientation)", floor=5)
